@@ -14,7 +14,7 @@ from checks.common.cases import explore_cases, run_case
 PROP = 'C07'
 LEVEL = 'exploration'
 SHARDS = {'quick': 4, 'thorough': 16}
-BUDGET_S = {'quick': 40, 'thorough': 400}
+BUDGET_S = {'quick': 150, 'thorough': 400}
 RULE = ('(base, reference) pairs: bases with/without path, trailing slash, query, fragment, port, userinfo, '
         'empty segments; references path-absolute / path-relative over every sequence of up to 4 segments from '
         '{".", "..", "", "a", "b"} (systematic) and random longer ones, query-only, fragment-only, empty, each '
@@ -333,7 +333,7 @@ def run(ctx):
         if ctx.out_of_time():
             break
     ctx.stats.count('systematic_refs_done', i)
-    explore_cases(ctx, gen, check, {'quick': 15000, 'thorough': 750000}[ctx.tier], 'nav')
+    explore_cases(ctx, gen, check, {'quick': 30000, 'thorough': 750000}[ctx.tier], 'nav')
 
 
 def replay(witness):
